@@ -190,6 +190,12 @@ def c04_plans(ctx, dirs):
                 continue
             for cmd in ("STOR new.bin", "APPE a.txt", "RETR a.txt", "LIST", "MLSD", "STOR sub/../up.bin"):
                 plans.append([("cmd", "CWD " + d1), ("late", cmd, ["CWD " + d2])])
+    if "/free" in dirs:
+        # a relative path that is permitted below the directory the command was received in, and that spells a
+        # forbidden location below the directory the session has moved to when the data connection arrives
+        for cmd in ("RETR wo/d.txt", "LIST wo", "MLSD wo", "STOR ro/new.bin", "APPE ro/a.txt"):
+            plans.append([("cmd", "CWD /free"), ("late", cmd, ["CWD /"])])
+            plans.append([("cmd", "CWD /free"), ("late", cmd, ["CDUP", "PWD"])])
     return plans
 
 
@@ -209,6 +215,11 @@ def c04_oracle(plan, recs, nearest):
             if mm:
                 return {"what": "%r was checked against /%s (cwd %r when received) but after %r the worker's %s acted on %r" % (r["cmd"], "/".join(target), r["state"]["cwd"], r["interposed"], mm[0], mm[1]),
                         "signature": "C04:late:permission-checked-for-another-path"}
+            # the decision was taken when the command was received: what the session does before the data connection
+            # arrives does not take it back
+            if r["replies"][-1:] == [550] and len(r["replies"]) >= 2 + len(r.get("interposed", [])) and all(x.split(" ")[0].upper() in ("CWD", "CDUP", "PWD", "NOOP", "TYPE", "SYST") for x in r.get("interposed", [])):
+                return {"what": "%r was accepted (150) in %r - /%s is %s there - and after %r answered %r: a permission was asked for again, for another path" % (
+                    r["cmd"], r["state"]["cwd"], "/".join(target), "writable" if verb in ("STOR", "APPE") else "readable", r["interposed"], r["replies"]), "signature": "C04:late:permitted-transfer-refused-afterwards"}
         t0, t1 = parse_tree(r["tree0"]), parse_tree(r["tree1"])
         for k in set(t0) | set(t1):
             if t0.get(k) != t1.get(k):
